@@ -4,6 +4,9 @@ set -e
 cd "$(dirname "$0")"
 export CARGO_NET_OFFLINE=true
 (cd driver && cargo build --release --offline 2>&1 | tail -2)
+for t in tools/refacts tools/pestfacts; do
+  if [ -f "$t/Cargo.toml" ]; then (cd "$t" && cargo build --release --offline 2>&1 | tail -2); fi
+done
 python3 -c "
 import sys; sys.path.insert(0, '.')
 from sa import facts
